@@ -383,6 +383,14 @@ class C03(EvalProp):
             s = ('slice', r.choice(a), r.choice(a), r.choice(a[1:] + ['absent']))
             ln = r.randint(0, 5)
             cs.append(Case('b%d' % i, gens.render_path([('union', [s])]), [('a', [('n', float(k)) for k in range(ln)])]))
+        # boundary indexes, alone, in a union and after `..` (a negated MinInt64 is MinInt64 again)
+        for i in range(n // 20):
+            bi = r.choice([2 ** 63 - 1, -2 ** 63, -(2 ** 63 - 1), 2 ** 31, -2 ** 31, -2 ** 31 - 1, 2 ** 32, -2 ** 32])
+            st = r.choice([[('union', [('idx', bi)])], [('union', [('idx', r.randint(-2, 2)), ('idx', bi)])], [('rec', ('union', [('idx', bi)]))],
+                           [('wild', 'br'), ('union', [('idx', bi), ('idx', 0)])]])
+            ln = r.randint(0, 4)
+            el = [('n', float(k)) for k in range(ln)]
+            cs.append(Case('bi%d' % i, gens.render_path(st), [r.choice([('a', el), ('a', [('a', el), ('a', [])]), ('o', [(b'k', ('a', el))])])]))
         cs += bigint_filter_cases(r, max(40, n // 40), with_doc=True)
         return cs
 
@@ -528,13 +536,28 @@ class C02(EvalProp):
     def thorough_n(self):
         return 300000
 
+    RETRIEVE_DOC = ('o', [(b'a', ('a', [('n', 0.0), ('n', 1.0), ('o', [(b'b', ('n', 1.0)), (b'a', ('s', b'x'))]), ('a', [])])),
+                          (b'b', ('o', [(b'a', ('a', [])), (b'c', ('z',))])), (b'x', ('n', 1.0)), (b'k', ('b', True))])
+
     def cases(self, ctx, g, n):
         cs = string_cases(ctx, g, n)
         cs += exhaustive_string_cases(None if not ctx.quick else 1800)
+        # Retrieve on the same strings: every third one is also evaluated on a small mixed document
+        for c in cs[::3]:
+            if not c.docs:
+                c.docs = [self.RETRIEVE_DOC]
+        # integer texts at the limits of int64 as indexes and slice bounds, on a document where they reach arrays
+        lim = ['9223372036854775807', '-9223372036854775808', '-9223372036854775807', '9223372036854775808', '-9223372036854775809', '4294967296', '-4294967296']
+        for i, t in enumerate(lim):
+            for j, tpl in enumerate(['$.a[%s]', '$..[%s]', '$.a[0,%s]', '$.a[%s:]', '$.a[:%s]', '$.a[::%s]', '$.a[*][%s]', '$..a[%s,1]']):
+                cs.append(Case('lim%d_%d' % (i, j), (tpl % t).encode(), [self.RETRIEVE_DOC], meta={'kind': 'int64-limits'}))
         return cs
 
     def project(self, o, c):
-        return {'P': pclass(o.get('P', ''))}
+        out = {'P': pclass(o.get('P', ''))}
+        for k in rkeys(o, 'R'):
+            out[k] = cls_of(o[k])
+        return out
 
     def nontrivial(self, c, g):
         p = g.get('P', '')
@@ -548,6 +571,9 @@ class C02(EvalProp):
             if pclass(p) not in DOC_PARSE or '!badtext' in p:
                 res.violation('concrete', sig_of(c, 'parse-not-total'),
                               'Parse(%r) -> %s' % (c.path, p[:300]), c, observed=p)
+            for k in rkeys(g, 'R'):
+                if crashy(g[k]) or cls_of(g[k]) not in ('ok', 'mne', 'tum', 'ff'):
+                    res.violation('concrete', sig_of(c, 'retrieve-not-total'), 'Retrieve(%r) -> %s' % (c.path, g[k][:200]), c, observed=g[k])
         return f
 
     def extra(self, ctx, res, g, budget_scale):
@@ -1130,7 +1156,8 @@ class C06(Prop):
 
 # =======================================================================================
 C07_KEYS = [b'a', b'b', b'B', b'aa', b'ab', b'a-b', b'\xc3\xa9', b'z', b'Z', b'10', b'9', b'_x', b'k1', b'\xe3\x81\x82',
-            b'zz', b'a\xcc\x81', b'\xf0\x9f\x98\x80', b'{', b'~', b' ', b'', b'A', b'aaa', b'b0']
+            b'zz', b'a\xcc\x81', b'\xf0\x9f\x98\x80', b'{', b'~', b' ', b'', b'A', b'aaa', b'b0',
+            b'\xef\xbd\xb1', b'\xee\x80\x80', b'\xf0\x90\x80\x80', b'a\xef\xbf\xbd', b'a\xf0\x9f\x98\x80']
 
 
 @register
@@ -1143,16 +1170,73 @@ class C07(Prop):
     trusted = TRUSTED_EVAL + ['sort.Strings is assumed to sort byte-wise; Go map iteration order is not modelled (the model '
                               'reaches objects only through sorted keys and lookup)']
 
+    def wide_histories(self, ctx, res, g, budget_scale):
+        """an object with 30..45 members that the caller keeps and edits in place between calls (a member renamed: same
+        count, other name): every call must enumerate the CURRENT members in ascending key order"""
+        r = g.r
+        base, raws = [], []
+        for i in range(ctx.n(30, 300) * budget_scale):
+            nk = r.randint(30, 45)
+            keys = set()
+            while len(keys) < nk:
+                keys.add(r.choice([b'k', b'a', b'z', b'K']) + b'%03d' % r.randint(0, 999))
+            keys = list(keys)
+            r.shuffle(keys)
+            cur = [(k, ('n', float(j))) for j, k in enumerate(keys)]
+            path = r.choice([b'$.*', b'$..*', b'$[*]', b'$[?(@ >= 0)]', b'$[?(@)]', b'$..[?(@ >= 0)]'])
+            ops = [dict(op='parse', slot=0, **op_cfg(Case('x', path, [])))]
+            docs = []
+            for step in range(r.randint(2, 4)):
+                op = {'op': 'call', 'slot': 0, 'doc_ref': 1}
+                if step > 0:
+                    j = r.randrange(len(cur))
+                    new = r.choice([b'k', b'a', b'z', b'K', b'm']) + b'%03d' % r.randint(0, 999)
+                    if new not in dict(cur):
+                        op['rename'] = [core.hx(cur[j][0]), core.hx(new)]
+                        cur = cur[:j] + cur[j + 1:] + [(new, cur[j][1])]
+                d = ('o', list(cur))
+                op['doc'] = core.doc_go(d)
+                docs.append(d)
+                ops.append(op)
+            c = Case('wide%d' % i, path, docs, meta={'family': 'wide-object-renamed-in-place', 'nkeys': nk})
+            base.append(c)
+            raws.append(RawCase(c.id, hist_json(c.id, ops)))
+        gos = core.run_go(raws)
+        core.fill_tables(base)
+        mos = core.run_model(base)
+        for c, g_, m in zip(base, gos, mos):
+            res.evaluations += 1
+            hp = harness_problem(g_) or harness_problem(m)
+            if hp:
+                res.violation('broken-correspondence', 'harness:' + hp[:60], hp, c)
+                continue
+            for k in range(len(c.docs)):
+                o = g_.get('O%d' % (k + 1), '').split('|')[0]
+                want = m.get('R%d' % k, '')
+                if o != want:
+                    res.disagreements_checked += 1
+                    res.violation('concrete', sig_of(c, 'order-after-rename'),
+                                  'call %d of %r on an object of %d members edited in place: the members of the current object in ascending key order' % (k, c.path, c.meta['nkeys']),
+                                  c, expected=want[:300], observed=o[:300])
+                    break
+            res.nontrivial.add((c.path, c.id))
+            res.dist['wide-history'] += 1
+
     def run(self, ctx, res, budget_scale=1, seed_offset=0):
         g = gens.G(ctx.seed * 17 + 7 + seed_offset)
         r = g.r
         n = ctx.n(1200, 10000) * budget_scale
+        self.wide_histories(ctx, res, gens.G(ctx.seed * 19 + 77 + seed_offset), budget_scale)
         cases = load_corpus(self.id, ctx.root) if seed_offset == 0 else []
         templates = [b'$.*', b'$..*', b'$[*]', b'$..[*]', b'$[?(@)]', b'$..[?(@)]', b'$.*.*', b'$..a', b"$..['a','b']",
                      b'$[?(@.a)]', b'$..[?(@.a || @.b)]', b'$.*[*]', b'$..*.*', b"$['b','a',*]", b'$[*,*]']
         for i in range(n):
             def obj(depth):
                 ks = r.sample(C07_KEYS, r.randint(2, 12))
+                if r.random() < 0.15:
+                    # a character beyond the BMP next to one in U+E000..U+FFFF: byte order and UTF-16 order disagree
+                    ks = list(dict.fromkeys(ks + r.choice([[b'\xf0\x9f\x98\x80', b'\xef\xbd\xb1'], [b'\xf0\x90\x80\x80', b'\xee\x80\x80'],
+                                                           [b'a\xf0\x9f\x98\x80', b'a\xef\xbf\xbd']])))
                 return ('o', [(k, (obj(depth - 1) if depth > 0 and r.random() < 0.25 else
                                    (('a', [obj(0) if r.random() < 0.3 and depth > 0 else g.scalar() for _ in range(r.randint(0, 3))])
                                     if r.random() < 0.2 else g.scalar()))) for k in ks])
@@ -2243,6 +2327,15 @@ class C15(Prop):
             c = Case('s%d' % i, gens.render_path(steps), [doc])
             cases.append(c)
             expect[c.id] = single_path_expectation(steps, doc)
+        # several branches failing in DIFFERENT functions of a chain: the error names the function furthest along the path,
+        # whatever the order of the branches
+        for i in range(max(30, n // 40)):
+            vals = [r.choice([('s', b'x'), ('b', True), ('n', 2.0), ('z',), ('a', []), ('o', [])]) for _ in range(r.randint(2, 5))]
+            names = [r.choice(['fstr', 'twice', 'fstr', 'twice', 'id', 'wrap', 'tn', 'fail']) for _ in range(r.randint(2, 3))]
+            holder = ('a', vals) if r.random() < 0.5 else ('o', [(b'k%d' % j, v) for j, v in enumerate(vals)])
+            pre = r.choice([b'$[*]', b'$.*', b'$..*', b'$[0:]' if holder[0] == 'a' else b'$[*]', b'$[?(@ || 1 == 1)]'])
+            path = pre + b''.join(b'.%s()' % nm.encode() for nm in names)
+            cases.append(Case('fc%d' % i, path, [holder, ('a', list(reversed(vals)))], sorted(set(names)), [], meta={'family': 'function-chain-errors', 'nsteps': 1 + len(names)}))
         go, mo = both_sides(cases)
         for c, g_, m in zip(cases, go, mo):
             res.evaluations += 1
@@ -2860,6 +2953,12 @@ class C20(EvalProp):
         for c in cs:
             if b'==' in c.path or b'!=' in c.path:
                 c.docs = [scrub(d) for d in c.docs]
+        # the foreign value as the WHOLE document, and one level down: the same treatment at every depth
+        for j, kind in enumerate(sorted(core.KINDS)):
+            for i, path in enumerate([b'$', b'$.a', b'$.*', b'$..a', b'$[0]', b'$[?(@.a)]', b'$..*', b"$['a','b']", b'$[0:1]', b'$.a.b']):
+                doc = ('x', kind)
+                cs.append(Case('root%d_%d' % (j, i), path, [doc, ('o', [(b'a', doc)]), ('a', [doc])], acc=(i + j) % 5 == 0,
+                               meta={'family': 'foreign-root', 'nsteps': 1}))
         return cs
 
     def project(self, o, c):
